@@ -251,10 +251,27 @@ def _run_play(case, cas):
             log.append({"tag": tag, "snap": hg.snap(value), "value": value,
                         "share_recording": hg.shared_mutable(value, cur["recording"])})
 
+    from playback.interception.input_interception import InputInterceptionDataHandler
+    from playback.tape_recorder import CapturedArg
+
+    class BufferHandler(InputInterceptionDataHandler):
+        """An input that delivers its data through a caller supplied buffer (out-parameter)."""
+        def prepare_input_for_recording(self, interception_key, result, args, kwargs):
+            return {"count": result, "rows": list(args[2])}
+
+        def restore_input_from_recording(self, recorded_data, args, kwargs):
+            args[2].extend(recorded_data["rows"])
+            return recorded_data["count"]
+
     class Svc(object):
         @rec.intercept_input('load')
         def load(self, n):
             return hg.build(g_in)[1]
+
+        @rec.intercept_input('fill', data_handler=BufferHandler(), capture_args=[CapturedArg(1, 'n')])
+        def fill(self, n, into):
+            into.extend([hg.build(g_in)[1], hg.build(g_data)[1]])
+            return len(into)
 
         @rec.intercept_input('fail')
         def fail(self):
@@ -281,6 +298,13 @@ def _run_play(case, cas):
                 seen("data2", d2)
             else:
                 rec.record_data("blob", hg.build(g_data)[1])
+            buf1 = []
+            svc.fill(1, buf1)
+            seen("buf1", buf1)
+            hg.mutate(buf1, script)
+            buf2 = []
+            svc.fill(1, buf2)
+            seen("buf2", buf2)
             r1 = svc.store(a)
             seen("res1", r1)
             hg.mutate(r1, script)
@@ -341,11 +365,11 @@ def _run_play(case, cas):
         # two reads of the same key inside one replay: the first was mutated before the second was made
         snaps = dict((e["tag"], e["snap"]) for e in log)
         p["second_read_same"] = [snaps.get(x) == snaps.get(y) for x, y in
-                                 (("in1", "in2"), ("data1", "data2"), ("exc1", "exc2"))]
+                                 (("in1", "in2"), ("data1", "data2"), ("exc1", "exc2"), ("buf1", "buf2"))]
         vals = dict((e["tag"], e["value"]) for e in log)
         p["share_two_reads"] = max([hg.shared_mutable(vals[x], vals[y])["n"] for x, y in
-                                    (("in1", "in2"), ("data1", "data2"), ("res1", "res2"), ("exc1", "exc2"))
-                                    if x in vals and y in vals] or [0])
+                                    (("in1", "in2"), ("data1", "data2"), ("res1", "res2"), ("exc1", "exc2"),
+                                     ("buf1", "buf2")) if x in vals and y in vals] or [0])
         ro = [[o.key, o.value] for o in pb.recorded_outputs]
         p["recorded_outputs"] = hg.snap(sorted(ro, key=lambda kv: kv[0]))
         p["share_outputs_recording"] = hg.shared_mutable([o.value for o in pb.recorded_outputs], pb.original_recording)
@@ -373,15 +397,52 @@ def _run_play(case, cas):
 # ---------------------------------------------------------------------------------------------
 # kind "copy": copy-on-interception
 
+HFORMS = ("result", "pair", "dict", "req", "buf_only", "nested", "fresh")
+
+
+def _fill(buf, v, tag):
+    """What an input with an out-parameter does to the caller's buffer."""
+    if isinstance(buf, list):
+        buf.extend([v, tag])
+    elif isinstance(buf, dict):
+        buf["filled"] = v
+    elif isinstance(buf, set):
+        buf.add(tag)
+    elif buf is not None:
+        setattr(buf, "filled", v)
+
+
+def _prepared(form, result, buf, req):
+    """Recorded form built by the data handler from the result AND from live objects of the call."""
+    if form == "result":
+        return result
+    if form == "pair":
+        return (result, buf)
+    if form == "dict":
+        return {"count": result, "rows": buf}
+    if form == "req":
+        return {"r": result, "req": req}
+    if form == "buf_only":
+        return buf
+    if form == "nested":
+        return [{"deep": [buf, req]}, result]
+    return {"r": result, "n": 2}
+
+
 def run_copy(case):
+    from playback.interception.input_interception import InputInterceptionDataHandler
     cas = InMemoryTapeCassette()
     rec = TapeRecorder(cas)
     rec.enable_recording()
     script = case["script"]
     g_in, g_out = case["vin"], case["vout"]
     flag = case["copy"]
+    form = case.get("hform")            # None: no data handler
+    via = case.get("via", "arg")        # how the out-parameter is passed
+    static = bool(case.get("static"))
     live = {}
     cap = {}
+    held = {}                           # live objects the service keeps working on
     orig_save = cas._save_recording
 
     def spy_save(recording):
@@ -392,7 +453,7 @@ def run_copy(case):
     cas._save_recording = spy_save
 
     def capture(tag, v):
-        """In the intercepted function, just before it returns v: what a copy taken now would hold."""
+        """At capture time: what a copy of the recorded form taken now would hold."""
         cap[tag] = {"value": v, "now": hg.snap(v)}
         try:
             cap[tag]["copy_now"] = hg.snap(jsonpickle.decode(jsonpickle.encode(v, unpicklable=True)))
@@ -401,10 +462,35 @@ def run_copy(case):
             cap[tag]["copy_err"] = err_name(ex)
         return v
 
+    class Handler(InputInterceptionDataHandler):
+        def prepare_input_for_recording(self, interception_key, result, args, kwargs):
+            buf = kwargs["into"] if "into" in kwargs else args[1 if static else 2]
+            return capture("in", _prepared(form, result, buf, kwargs.get("req")))
+
+        def restore_input_from_recording(self, recorded_data, args, kwargs):
+            return recorded_data
+
+    def load_body(n, into, req=None):
+        v = hg.build(g_in)[1]
+        _fill(into, hg.build(g_in)[1], "F")
+        _fill(req, [n], "R")
+        held["result"] = v
+        if form is None:
+            capture("in", v)
+        return v
+
+    handler = Handler() if form is not None else None
+
     class Svc(object):
-        @rec.intercept_input('load')
-        def load(self, n):
-            return capture("in", hg.build(g_in)[1])
+        if static:
+            @staticmethod
+            @rec.static_intercept_input('load', data_handler=handler)
+            def load(n, into, req=None):
+                return load_body(n, into, req)
+        else:
+            @rec.intercept_input('load', data_handler=handler)
+            def load(self, n, into, req=None):
+                return load_body(n, into, req)
 
         @rec.intercept_output('store')
         def store(self, payload):
@@ -415,9 +501,18 @@ def run_copy(case):
         @rec.operation()
         def execute(self):
             svc = Svc()
-            a = svc.load(1)
-            cap["in"]["returned_is_original"] = (a is cap["in"]["value"])
-            hg.mutate(a, script)                   # the service goes on working on what it got
+            into = hg.build(case["vbuf"])[1] if "vbuf" in case else []
+            req = hg.build(case["vreq"])[1] if "vreq" in case else {"q": [1]}
+            held["into"], held["req"] = into, req
+            if via == "kwarg":
+                a = svc.load(1, into=into, req=req)
+            else:
+                a = svc.load(1, into, req=req)
+            held["returned_is_original"] = (a is held.get("result"))
+            # the service goes on working, in place, on everything it holds
+            hg.mutate(a, script)
+            hg.mutate(into, script)
+            hg.mutate(req, script)
             r = svc.store("x")
             cap["res"]["returned_is_original"] = (r is cap["res"]["value"])
             hg.mutate(r, script)
@@ -425,23 +520,31 @@ def run_copy(case):
 
     Op().execute()
     out = {"copy": flag, "values": []}
-    for tag, prefix, suffix in (("in", "input: load", ""), ("res", "output: store #1.result", "")):
-        key = next((k for k in sorted(live) if k.startswith(prefix) and k.endswith(suffix)), None)
-        o = {"tag": tag, "recorded": key is not None}
-        if key is not None and tag in cap:
+    for tag, prefix in (("in", "input: load"), ("res", "output: store #1.result")):
+        key = next((k for k in sorted(live) if k.startswith(prefix)), None)
+        o = {"tag": tag, "recorded": key is not None and tag in cap}
+        if o["recorded"]:
             wrapper = live[key]
             recorded = wrapper.get("value") if isinstance(wrapper, dict) else None
             c = cap[tag]
-            o["returned_is_original"] = c.get("returned_is_original")
-            o["n_mutable"] = len(hg.mutable_nodes(c["value"]))
-            o["share_recorded_result"] = hg.shared_mutable(recorded, c["value"])
+            if tag == "in":
+                service_holds = [held.get("result"), held.get("into"), held.get("req")]
+                o["returned_is_original"] = held.get("returned_is_original")
+                o["share_recorded_result"] = hg.shared_mutable(recorded, held.get("result"))
+                o["share_recorded_args"] = hg.shared_mutable(recorded, [held.get("into"), held.get("req")])
+            else:
+                service_holds = [c["value"]]
+                o["returned_is_original"] = c.get("returned_is_original")
+                o["share_recorded_result"] = hg.shared_mutable(recorded, c["value"])
+                o["share_recorded_args"] = {"n": 0}
+            o["n_mutable"] = len(hg.mutable_nodes(service_holds))
             s = hg.snap(recorded)
             o["recorded_equals_copy_at_capture"] = (s == c["copy_now"])
             o["recorded_equals_value_at_capture"] = (s == c["now"])
             o["recorded_equals_mutated_value"] = (s == hg.snap(c["value"]))
             o["copy_possible"] = c["copy_now"] is not None
             if not o["recorded_equals_copy_at_capture"]:
-                o["recorded"] = clip(s)
+                o["recorded_snap"] = clip(s)
                 o["at_capture"] = clip(c["copy_now"] or "")
         out["values"].append(o)
     return out
